@@ -111,6 +111,17 @@ func blockedOnSavingLock(t *cthread, dump []byte) bool {
 	return false
 }
 
+// allStacks dumps every goroutine, growing the buffer until the dump fits.
+func allStacks(buf *[]byte) []byte {
+	for {
+		n := runtime.Stack(*buf, true)
+		if n < len(*buf) {
+			return (*buf)[:n]
+		}
+		*buf = make([]byte, 2*len(*buf))
+	}
+}
+
 // waitStable returns once every thread is not-started / parked / finished / blocked on the saving lock.
 // blocked[i] tells which running threads are blocked.
 func waitStable(r *ev.Run, ts []*cthread) (blocked []bool) {
@@ -128,7 +139,7 @@ func waitStable(r *ev.Run, ts []*cthread) (blocked []bool) {
 			anyRunning = anyRunning || states[i] == tRunning
 		}
 		if anyRunning {
-			dump := buf[:runtime.Stack(buf, true)]
+			dump := allStacks(&buf)
 			for i, t := range ts {
 				if states[i] != tRunning {
 					continue
@@ -144,7 +155,19 @@ func waitStable(r *ev.Run, ts []*cthread) (blocked []bool) {
 			return
 		}
 		if time.Now().After(deadline) {
-			r.HarnessError("concurrency harness: no stable state within 60 s (thread neither finished, parked nor blocked on the saving lock)")
+			dump := allStacks(&buf)
+			var stuck []string
+			for i, t := range ts {
+				if states[i] == tRunning && !blocked[i] {
+					hdr := []byte(fmt.Sprintf("goroutine %d [", t.gid))
+					for _, g := range bytes.Split(dump, []byte("\n\n")) {
+						if bytes.HasPrefix(g, hdr) {
+							stuck = append(stuck, t.name+": "+string(g))
+						}
+					}
+				}
+			}
+			r.HarnessError("concurrency harness: no stable state within 60 s (thread neither finished, parked nor blocked on the saving lock): %v", stuck)
 		}
 		if spin < 50 {
 			runtime.Gosched()
